@@ -11,7 +11,8 @@ func init() {
 		title: "syntax errors pre-empt execution; runtime faults stop the run",
 		run:   runC11,
 		decided: "no error result of an interpreter function (or of the listed library calls) is dropped; on the non-nil edge of every such result no path returns a nil error or re-executes the call, except the designed sentinel consumers (table); " +
-			"assignment nodes are only built behind an allow-list target test; break/continue/return nodes only behind their context guard; the program is parsed completely before the evaluator is built; output is written unbuffered.",
+			"assignment nodes are only built behind an allow-list target test; break/continue/return nodes only behind their context guard; the program is parsed completely before the evaluator is built; output is written unbuffered." +
+			" The assignment-target validation dominates every successful return of the assignment parselet; divisions are dominated by the zero test; the lexer produces EOF only at the real end of the text.",
 		notDecided: "that each kind of fault is detected in the first place (operator tables: C05/C09/C16).",
 	})
 }
